@@ -1,7 +1,7 @@
 """Property -> rules wiring and MANIFEST metadata."""
 import os
 from . import facts, sem
-from .rules import f5_trace, f6_kinds, f7_roots, f4_gc, f4_chan, f4_sched, f4_vm, f1_isa, f9_casts, f10_parity, f2_emit, f2_visit, f3_flow, f4_exc, f4_iter, f4_repl, f9_empty, f4_cache, f4_obj, f11_peephole, f8_hazards, f1c_ops, f9_cursor
+from .rules import f5_trace, f6_kinds, f7_roots, f4_gc, f4_chan, f4_sched, f4_vm, f1_isa, f9_casts, f10_parity, f2_emit, f2_visit, f3_flow, f4_exc, f4_iter, f4_repl, f9_empty, f4_cache, f4_obj, f11_peephole, f8_hazards, f1c_ops, f9_cursor, f12_order
 
 
 def _guard_rules():
@@ -177,6 +177,8 @@ def c04(rec, tier):
     f2_emit.run_depth_provenance(rec, F)
     f3_flow.run(rec, F, S)
     f4_exc.run(rec, F)
+    f12_order.dead_handlers_after_pop(rec, F)
+    f12_order.try_depth_source(rec, F)
     f4_exc.run_native_env(rec, F, S)
     f4_vm.synthetic_call_protocol(rec, F)
     f4_iter.run_error_not_dropped(rec, F)
@@ -216,6 +218,10 @@ def c06(rec, tier):
     f2_emit.run_declare_define(rec, S)
     f2_emit.run_depth_provenance(rec, F)
     f3_flow.run(rec, F, S)
+    # handlers on the fiber = try blocks the running code is inside of: nesting records, depths, dead handlers
+    f2_emit.run_scoped_state(rec, S)
+    f12_order.try_depth_source(rec, F)
+    f12_order.dead_handlers_after_pop(rec, F)
     f2_emit.run_constant_kinds(rec, S, F)
     f2_emit.run_provenance(rec, S)
     f9_casts.run_static_slices(rec, F)
@@ -226,6 +232,11 @@ def c07(rec, tier):
     f4_chan.run(rec, F)
     f1_isa.run_rewind(rec, F)
     f4_sched.queue_once(rec, F)
+    # a synchronous sender must stay parked until its value is taken: the wake-up search precedes parking (a fiber that
+    # is already parked re-queues itself through its own stale waiter), dequeues stay lazy, finished fibers are skipped
+    f4_sched.wake_before_park(rec, F)
+    f12_order.eager_dequeue(rec, F)
+    f12_order.complete_not_runnable(rec, F)
     # a buffered value must survive collection while only the channel holds it
     f5_trace.run(rec, F, only_adts=("laythe_core::object::channel::channel_queue::ChannelQueue", "laythe_core::object::channel::Channel", "laythe_core::object::channel::channel_waiter::ChannelWaiter"))
 
@@ -235,6 +246,8 @@ def c08(rec, tier):
     f4_sched.run(rec, F)
     f4_vm.runtime_error_has_error(rec, F)
     f4_chan.runnable_scan(rec, F)
+    f12_order.eager_dequeue(rec, F)
+    f12_order.complete_not_runnable(rec, F)
 
 
 def c15(rec, tier):
@@ -268,6 +281,7 @@ def c10(rec, tier):
     f10_parity.run_forwarded_writes(rec, F)
     f10_parity.run_scan_covers_stack(rec, F)
     f10_parity.run_stale_after_scan(rec, F)
+    f12_order.forward_single_hop(rec, F)
     # any value works as a map key: equal values hash equal
     f10_parity.run_number_equality(rec, F, "unboxed")
     # the allocation a grown list moved into stays alive while an alias still forwards into it
